@@ -27,15 +27,20 @@ from tables.c09 import canon, jtext
 
 META = {
     'level_text': 'Theorems about an explicit object-heap model of HasAccessibles.__init_subclass__ / Module.__init__ / datatype '
-                  'mutation (FrappyModel/Klass): frame (every operation writes only fresh objects or objects owned by its target), '
-                  'separated_preserved (no object is reachable from two owners, for every operation sequence), isolated (description '
-                  'and validation-relevant content of every non-target owner unchanged), order_independent (the description of a class '
-                  'is a function of its MRO chain and the declarations on it), later_instances_fresh.  Tied to the code by a '
-                  'correspondence run (dumps + id()-sharing partition after every operation of generated programs) and by Lean '
-                  'monitors judging every implementation trace.',
+                  'mutation (FrappyModel/Klass): frame (every operation leaves every existing object alone that is not reachable from '
+                  'its target), isolated (description and validation behaviour of every non-target owner unchanged, one step, under the '
+                  'invariants Bounded and Separated), class_description_stable and later_instances_fresh (over runs whose intermediate '
+                  'worlds satisfy the invariants).  PARTIAL: preservation of the invariants is proved for instantiation only '
+                  '(separated_preserved_partial), order independence only at value level for an unrelated earlier class '
+                  '(order_independent_partial); the full statements are kept as separated_preserved_statement / '
+                  'order_independent_statement.  Tied to the code by a correspondence run (every dump and the id()-sharing partition '
+                  'after every operation of generated programs) and by Lean monitors judging every implementation trace (isolation, '
+                  'order independence, later instances).',
     'level_note': 'Trusted: Lean kernel + axioms propext/Classical.choice/Quot.sound; Python C3 linearisation is an input (the real '
                   '__mro__ is passed to the model); validation behaviour is taken to be a function of the exported datainfo '
-                  '(monitored on every run: equal datainfo => equal boundary-catalogue outcomes).',
+                  '(monitored on every run); whether an operation fails is taken from the implementation (the model skips failed '
+                  'operations, the judge demands they change nothing); faithfulness of the heap layout and invariant preservation by '
+                  'class definition / mutation are tested by the correspondence run, not proved.',
     'trusted': [
         "Python's C3 linearisation (the real __mro__ of every generated class is passed to the model as data)",
         'validation behaviour of a datatype object is a function of its exported datainfo (checked by the monitor valFunctionalB on every run)',
